@@ -76,7 +76,7 @@ def run(ctx):
         if fn is None:
             continue
         ctx.touch(fn, len(fn.blocks))
-        apps = fn.calls_to('Memvid::append_wal_entry')
+        apps = lib.op_calls(F, fn, ('Memvid::append_wal_entry',))
         n_app += len(apps)
         if not apps:
             ctx.lost('MPT-C01a', '%s no longer calls append_wal_entry' % fn.key)
@@ -229,7 +229,7 @@ def run(ctx):
     for fn in (put, dele):
         if fn is None:
             continue
-        apps = fn.calls_to('Memvid::append_wal_entry')
+        apps = lib.op_calls(F, fn, ('Memvid::append_wal_entry',))
         sts = [s for s in lib.field_stores(fn, 'Memvid', 'dirty')
                if s['rv']['k'] == 'use' and s['rv']['a'].get('k', {}).get('v') is True]
         for ex in fn.ok_exits():
